@@ -63,8 +63,10 @@ def recognise(toks, prefix=PREFIX, postfix=POSTFIX, infix=INFIX):
         out = set()
         for j in token(i):
             out.add(j)
-            if j < n and toks[j][0] == "op" and toks[j][1] in postfix:
-                out.add(j + 1)
+            k = j
+            while k < n and toks[k][0] == "op" and toks[k][1] in postfix:
+                k += 1
+                out.add(k)
         return frozenset(out)
 
     @functools.lru_cache(maxsize=None)
